@@ -97,7 +97,7 @@ static std::vector<T> canon(std::uint64_t pos, sz count)
     return u;
 }
 
-static std::vector<std::vector<sz>> const g_calls_lists = {{3}, {2, 4}, {3, 1, 4}, {2, 3, 2, 4}};
+static std::vector<std::vector<sz>> const g_calls_lists = {{3}, {2, 4}, {3, 1, 4}, {2, 3, 2, 4}, {2, 1, 3, 2, 4}};
 
 // execution modes: 0 uninterrupted, 1.. resumed from text after `mode` iterations, 100+P MPI with P ranks
 template <typename T>
@@ -318,11 +318,11 @@ static void for_type(report& r)
 {
     std::string const tn = vf::type_name<T>();
     if (!r.want_prefix(tn)) return;
-    for (sz iters = 1; iters <= 4; ++iters)
+    for (sz iters = 1; iters <= (r.a().thorough() ? 5u : 4u); ++iters)
     {
         std::vector<int> modes = {0, 50};      // 50: written to text and read back before the first iteration
         for (sz s = 1; s < iters; ++s) modes.push_back(int(s));
-        for (int p = 1; p <= 3; ++p) modes.push_back(100 + p);
+        for (int p = 1; p <= (r.a().thorough() ? 4 : 3); ++p) modes.push_back(100 + p);
         for (int mode : modes)
         {
             for (int gk = 0; gk <= 4; ++gk)
